@@ -317,6 +317,10 @@ def run_case(case: dict) -> Result:
     bad6 = _copy_field_then_claim(root, text, classes)
     if bad6:
         return _done(res.bad(*bad6), classes)
+    # (6b) a list asked to claim a comment that lies outside its owner's body: refused, or accepted without breaking the nesting
+    bad6b = _inner_list_outer_comment(root, text, classes)
+    if bad6b:
+        return _done(res.bad(*bad6b), classes)
     # (7) a copy of a released comment given to a model: whoever holds a comment owns it, and its flag says so
     bad7 = _assign_copied_comment(root, text, classes)
     if bad7:
@@ -385,6 +389,37 @@ def _append_release_claim(root: Any, classes: set) -> Optional[tuple]:
             if omap(root) != before:
                 return (f'unclaim-claim:appended-comment:not-restored:{cn}', f'unclaim then claim of an appended comment does not restore the attribution in {text!r}')
             return None
+    return None
+
+
+def _inner_list_outer_comment(root: Any, text: str, classes: set) -> Optional[tuple]:
+    for m in commentable(root):
+        lists = [p.name for p in S.props_of(m) if p.kind == 'clist']
+        if vars(m).get('_trailing_comment') is None or not lists:
+            continue
+        for pname in lists:
+            c = m.unclaim_trailing_comment()
+            if c is None:
+                break
+            w = getattr(m, pname)
+            try:
+                w.claim_interleaving_comments([c])
+                accepted = True
+            except ValueError:
+                accepted = False
+            classes.add('stage:inner-list-outer-comment')
+            if accepted:
+                inv = O.invariants(root)
+                bad = check_unique(root, False, f'after {type(m).__name__}.{pname}.claim_interleaving_comments([its owner\'s released trailing comment])')
+                if inv or bad:
+                    return (f'inner-list-claims-outer-comment:{type(m).__name__}.{pname}',
+                            f'{type(m).__name__}.{pname}.claim_interleaving_comments([the released trailing comment of the {type(m).__name__}]) was accepted and left '
+                            f'{inv[:2] or bad}; text {text!r}')
+                w.unclaim_interleaving_comments([c])
+            try:
+                m.claim_trailing_comment()
+            except ValueError:
+                return None
     return None
 
 
